@@ -833,6 +833,8 @@ class MinMaxAggregator:
         (this might the a new one or the old one)
         """
         atom = agg.atom
+        if atom.function == AggregateFunction.SumPlus:
+            return agg  # the differences of a #min chain are negative: #sum+ would drop them, not the value
         elements = []
         for elem in atom.elements:
             elements.extend(self._replace_results_in_sum_agg_elem(elem, [x for x in atom.elements if x != elem]))
